@@ -361,10 +361,15 @@ def _result_paths(f, call_block):
             rel = relation_of_label(f, lab)
             if rel:
                 a, c, rs = rel
+                if is_res(c) and op_const(a) is not None:
+                    a, c, rs = c, a, {{"lt": "gt", "gt": "lt", "eq": "eq"}[x] for x in rs}
                 if is_res(a) and op_const(c) == 0:
                     yield ("rel", tuple(sorted(rs)))
-                elif is_res(c) and op_const(a) == 0:
-                    yield ("rel", tuple(sorted({"lt": "gt", "gt": "lt", "eq": "eq"}[x] for x in rs)))
+                elif is_res(a) and op_const(c) == 1 and set(rs) in ({"lt"}, {"eq", "gt"}):
+                    # integers: `r < 1` is `r <= 0`, `r >= 1` is `r > 0`
+                    yield ("rel", ("eq", "lt") if set(rs) == {"lt"} else ("gt",))
+                elif is_res(a) and op_const(c) == -1 and set(rs) in ({"gt"}, {"eq", "lt"}):
+                    yield ("rel", ("eq", "gt") if set(rs) == {"gt"} else ("lt",))
 
     # the return place, and the locals moved into it whole (the Result of an inlined `check(result)` helper returned as the tail expression)
     ret_locals = {l for (l, p_) in _place_class(f, {(0, ())}) if not p_ and f.local_ty(l) == f.local_ty(0)}
@@ -679,12 +684,17 @@ def _position_local(f, tr):
                 continue
             for s in f.succ(b):
                 for lab in edge_label(f, b, s):
-                    if lab["kind"] == "cmp" and lab["op"] == "Lt":
-                        rb = tr.roots_of_operand(lab["b"])
-                        if any(r.kind == "call" and r.id == "core::slice::len" for r in rb):
-                            for r in tr.roots_of_operand(lab["a"]):
-                                pass
-                            l = op_local(lab["a"])
+                    if lab["kind"] == "cmp" and lab["op"] in ("Lt", "Le", "Gt", "Ge"):
+                        # `position < len`, `len > position`, or the exit test `position >= len` of a `loop { if .. break }`
+                        # (the position itself may also be *assigned* the length, when the end of the last fragment is clamped to it: the length side is the one that is nothing else)
+                        def is_len(o):
+                            rs_ = tr.roots_of_operand(o)
+                            return bool(rs_) and all(r.kind == "call" and r.id == "core::slice::len" for r in rs_)
+                        pos_side = lab["a"] if is_len(lab["b"]) and not is_len(lab["a"]) else (lab["b"] if is_len(lab["a"]) and not is_len(lab["b"]) else None)
+                        if pos_side is not None:
+                            l = op_local(pos_side)
+                            if l is None:
+                                continue
                             # resolve copies to the user variable
                             ds = [d for d in f.defs().get(l, []) if d[1] is not None]
                             if len(ds) == 1 and ds[0][2]["rv"]["r"] == "use":
@@ -894,7 +904,15 @@ def rule_retry_shrink(ctx, cfg, F):
                     continue
                 n_stores += 1
                 rv = st["rv"]
-                good = rv["r"] == "bin" and rv["op"] == "Div" and (op_const(rv["a"][1]) or 0) >= 2
+                def shrinking(rv_, depth=0):
+                    if rv_["r"] == "bin" and rv_["op"] == "Div" and (op_const(rv_["a"][1]) or 0) >= 2:
+                        return True
+                    # `*est = if halved < sent { halved } else { sent / 2 }`: a local every definition of which is such a quotient (or a copy of one)
+                    if rv_["r"] == "use" and depth < 4 and op_local(rv_["a"][0]) is not None and not rv_["a"][0]["pl"].get("p"):
+                        dd = [d for d in g.defs().get(op_local(rv_["a"][0]), []) if not g.is_cleanup(d[0])]
+                        return bool(dd) and all(d[1] is not None and shrinking(d[2]["rv"], depth + 1) for d in dd)
+                    return False
+                good = shrinking(rv)
                 if not good:
                     ok = False
                     R.violate("%s:store-not-shrinking" % g.path, "a store to the send-buffer estimate in %s is not of the form x / c with c >= 2: a retry could use the same or a larger size" % g.path, g.path, g.loc(b, si), config=cfg)
